@@ -104,6 +104,8 @@ func C03(c *Ctx) {
 	c.perIterationStateRule("C03-6", "/pkg/parser", "Parser", "GenerateBaseCode")
 	c.docDetachRule("C03-8")
 	c.emptiedDocRule("C03-9")
+	c.cutRangeRule("C03-10")
+	c.searchFlagRule("C03-11")
 
 	r.Rule("C03-5", "lookupType: an unqualified function name of a notation is resolved with Scope().Innermost(pos).LookupParent(name, pos) of the package scope (so file-scope names from dot-imports resolve); a qualified one through the import table")
 	if fn := c.MustMethod("C03-5", "/pkg/parser", "Parser", "lookupType"); fn != nil {
@@ -236,7 +238,7 @@ func C11(c *Ctx) {
 		r.Check("C11-3", FnKey(fn)+":doc-cleared", c.Pos(fn.Pos()), ok, "the doc comment of a converter interface is not emptied: its notation lines and description would be printed above the generated functions")
 	}
 
-	r.Rule("C11-4", "who-may-write the AST: code reachable from main stores only to CommentGroup.List, Doc links and File.Comments of go/ast nodes – never to Decls, Imports, Specs, Names or Types")
+	r.Rule("C11-4", "who-may-write the AST: code reachable from main stores only to CommentGroup.List, Doc links and File.Comments of go/ast nodes – never to Decls, Imports, Specs, Names or Types; File.Comments is written only by util.InsertComment")
 	reach := c.reachableFrom(c.mainFunc())
 	allowed := map[string]bool{"ast.CommentGroup.List": true, "ast.File.Comments": true, "ast.GenDecl.Doc": true, "ast.FuncDecl.Doc": true, "ast.TypeSpec.Doc": true, "ast.Field.Doc": true, "ast.File.Doc": true, "ast.Comment.Slash": true, "ast.Comment.Text": true}
 	n := 0
@@ -263,7 +265,15 @@ func C11(c *Ctx) {
 					continue
 				}
 				n++
-				r.Check("C11-4", FnKey(fn)+":"+fname, c.InstrPos(st), allowed[fname], "module code modifies "+fname+" of the setup file's AST: declarations/imports would not be carried over intact")
+				okW := allowed[fname]
+				msg := "module code modifies " + fname + " of the setup file's AST: declarations/imports would not be carried over intact"
+				if fname == "ast.File.Comments" && fn.Name() != "InsertComment" {
+					// the list of comment groups has one writer, the marker insertion (which only adds a group, C03-2/4);
+					// nothing removes or replaces groups: every comment of the setup file stays attached for the printer
+					okW = false
+					msg = "File.Comments is replaced in " + FnKey(fn) + ": only util.InsertComment (adding the marker group) may write the list of comment groups – a filtered copy can lose comments of the setup file"
+				}
+				r.Check("C11-4", FnKey(fn)+":"+fname, c.InstrPos(st), okW, msg)
 			}
 		}
 	}
